@@ -9,7 +9,7 @@ from hypothesis import strategies as st
 # (0/127); 'stride' pools hold pitches whose difference is a keyboard-size constant (87, 88, 108, 109, 128 - 21, ...),
 # the shape that makes a flattened (channel, pitch) index collide
 STRIDE_POOLS = [(5, 92, 93), (5, 113, 114), (0, 109, 108), (18, 127, 126), (21, 108, 109), (3, 90, 91, 111, 112), (10, 117, 118)]
-BOUNDARY_POOLS = [(21, 108), (0, 127), (20, 21, 108, 109), (0, 127, 21, 108)]
+BOUNDARY_POOLS = [(21, 108), (0, 127), (20, 21, 108, 109), (0, 127, 21, 108), (0, 1, 2), (0, 1, 60)]   # last two: pitch == channel number
 
 
 def pitch_pool(dense):
@@ -52,7 +52,7 @@ def wellformed_notes(draw, channels=(0, 1), pitches=(60, 61, 62, 64), max_notes=
         length = draw(len_s) * (unit if lengths is None else 1)
         off = on + length
         cursor[k] = off
-        notes.append([ch, p, on, off, draw(st.integers(1, 127))])
+        notes.append([ch, p, on, off, draw(st.one_of(st.integers(1, 127), st.sampled_from([1, 127])))])
     notes.sort()
     return notes
 
@@ -72,9 +72,14 @@ def meta_events(draw, max_tick=200, max_events=3, unit=1, with_noise=False, tick
             continue
         seen.add((kind, t))
         if kind == "ts":
-            ev.append(["ts", t, draw(st.integers(1, 16)), draw(st.sampled_from(DENOMS))])
+            prev = [e for e in ev if e[0] == "ts"]
+            # sometimes restate an earlier value, sometimes one of the library's defaults (8/8, 4/4)
+            val = draw(st.one_of(st.tuples(st.integers(1, 16), st.sampled_from(DENOMS)), st.sampled_from([(8, 8), (4, 4)]),
+                                 st.sampled_from([(e[2], e[3]) for e in prev]) if prev else st.just((4, 4))))
+            ev.append(["ts", t, val[0], val[1]])
         elif kind == "ks":
-            ev.append(["ks", t, draw(st.sampled_from(KEYS))])
+            prev = [e[2] for e in ev if e[0] == "ks"]
+            ev.append(["ks", t, draw(st.one_of(st.sampled_from(KEYS), st.sampled_from(prev) if prev else st.just("C")))])
         elif kind == "cc":
             ev.append(["cc", t, draw(st.integers(0, 127)), draw(st.integers(0, 127))])
         else:
